@@ -14,6 +14,7 @@ RULE = ("Generated operation sequences (up to 50 steps, up to 4 evaluators) over
         "must raise every time and change nothing. A second part derives from a generated program pairs of DIFFERENT neighbour texts that a normalising shortcut would confuse (whitespace / comment look-alikes / case / Unicode normal forms inside strings, ==-equal literals of another type, a label spelling the tokens of two groups, identifier vs string of the same text, one more digit in a weight) and demands that E(A).recompile(B) behaves exactly like a fresh E(B), type-sensitively, and back. Non-trivial = history containing a failed recompile followed by a further "
         "operation on the same evaluator; distinct by operation sequence.")
 RULE += (' Since rounds 6-7: every neighbour pair of three fixed programs (incl. Adler-32 / CRC-32 / byte-sum twins) in both directions; a copy operation (copy.copy / deepcopy).')
+RULE += (" Since rounds 14-15: texts whose reached branch weighs nothing; every catalogue text constructed and recompiled to / from; every text of C06's invalid catalogue handed to recompile().")
 ASSUMPTIONS = [
     "all valid texts declare a splitter, so a probe result is a deterministic function of (text, probe)",
     "invalid texts are rejected by the independent recogniser of C06 (checked in the self-test)",
